@@ -17,7 +17,7 @@ from .. import circmon, detref, emumon
 from ..emumon import insert_heralds
 from .c03 import random_state
 from .c05 import make_circuit, make_post_selection
-from ..gen import pick_seed
+from ..gen import herald_in_place, pick_seed
 from .common import drain_into, merge_stats, setup, too_big
 
 PROPERTY = "C07"
@@ -26,7 +26,8 @@ RULE = ("seeded random configurations: circuit/heralds/input (as C05) x detector
         "distinct = (efficiency class, p_dark class, counting, herald photons?, post-selection kind, min_detection "
         "vs photon number, method); non-trivial = imperfect detector or heralds or post-selection or min_detection>0")
 MANDATORY = ["eff_lt1_dark_threshold", "min_detection_boundary", "herald_fails_after_detection",
-             "n_outputs_sampler", "n_outputs_quick", "single_sample", "dark_refusal_checked", "seed_reproducibility"]
+             "n_outputs_sampler", "n_outputs_quick", "single_sample", "dark_refusal_checked", "seed_reproducibility",
+             "herald_declared_in_place"]
 DECIDING = ["binomial_tests", "mon.sampling_postconditions", "mon.detector_events", "detector_conditional_tests"]
 BUDGET = {"quick": 35, "thorough": 540}
 ALPHA = 1e-15
@@ -207,6 +208,24 @@ def run_config(ctx, lw, rng, cfg=None):
             if not h["output"]:
                 ref = detref.accepted_distribution(base, {}, eta, pd, pc, lambda s: True, 0)
                 test_counts(ctx, cnt, m, ref, "Sampler.sample", case, "single_distribution")
+        if method in ("n_inputs", "n_outputs") and rng.random() < 0.3 and herald_in_place(c, rng):
+            # the same sampler after a herald was declared in place: the safety post-conditions (length, heralds
+            # removed, ...) and the seeded comparison with a fresh sampler must still hold
+            ctx.bucket("herald_declared_in_place")
+            new_in = State(random_state(rng, c.input_modes, min(nph, 2)))
+            target = smp if method == "n_inputs" else smp2
+            target.input_state = new_in
+            fresh = emu.Sampler(c, new_in, detector=target.detector)
+            meth = "sample_N_inputs" if method == "n_inputs" else "sample_N_outputs"
+            try:
+                r_long = dict(getattr(target, meth)(300, ps_obj if c.input_modes == k else None, 0, seed))
+                r_fresh = dict(getattr(fresh, meth)(300, ps_obj if c.input_modes == k else None, 0, seed))
+                if r_long != r_fresh:
+                    ctx.violation(f"after a herald was declared in place, {meth} of the reused sampler differs from a "
+                                  f"fresh sampler's with the same seed", case=case,
+                                  mechanism="reused_after_in_place_herald:" + meth, monitor="seeded comparison")
+            except Exception as e2:  # noqa: BLE001
+                ctx.count("reuse_after_herald_raised:" + type(e2).__name__)
     except Exception as e:  # noqa: BLE001
         ctx.violation(f"sampling raised {type(e).__name__}: {e}", case=case,
                       mechanism="sampling_raised:" + type(e).__name__, monitor="driver")
